@@ -74,7 +74,7 @@ MkCfg(N, k, x) == Compile(
 \* boundary-kind triples per family.  "sweep": the long axis of the shape runs through all 13 kinds, the other two
 \* axes carry a fixed background; "mixed": a fixed list of combinations; "full": everything.
 LongAxis(N) == CHOOSE a \in 1..3 : N[a] = 3
-Sweep(N) == { kk \in [ 1..3 -> Kinds ] : \A a \in 1..3 : a # LongAxis(N) => kk[a] = (IF a = A1(LongAxis(N)) THEN 1 ELSE 9) }
+Sweep(N) == { kk \in [ 1..3 -> Kinds ] : \A a \in 1..3 : a # LongAxis(N) => kk[a] = (IF a = A1(LongAxis(N)) THEN 1 ELSE 8) }
 Mixed(N) == { << 2, 9, 10 >>, << 13, 4, 6 >>, << 8, 12, 3 >>, << 1, 1, 1 >>, << 5, 5, 5 >>, << 11, 7, 2 >>, << 3, 3, 9 >>, << 9, 13, 13 >> }
 ShapeNo(N) == LongAxis(N)
 Listed(N) == { << (c \div 10000) % 100, (c \div 100) % 100, c % 100 >> : c \in { c \in List : c \div 1000000 = ShapeNo(N) } }
